@@ -175,6 +175,89 @@ func c07Save(r *core.Run, p *core.Program) {
 		}
 	})
 	r.Check(glob && names["UTXO.db"] && names["UTXO.old"], rule, "loader/fallback", p.Pos(ld.Pos()), "removes *.db.tmp, reads UTXO.db, falls back to UTXO.old", "the loader does not remove unfinished *.db.tmp files or does not fall back from UTXO.db to UTXO.old")
+	// the fallback is a retry of the whole read: the helper goroutine of the failed attempt is joined
+	// before another one is started (otherwise the second attempt's Wait never returns), i.e. there is
+	// no way from the go statement back to itself that avoids WaitGroup.Wait
+	var spawn []*ssa.BasicBlock
+	waits := map[*ssa.BasicBlock]bool{}
+	for _, b := range ld.Blocks {
+		for _, ins := range b.Instrs {
+			switch x := ins.(type) {
+			case *ssa.Go:
+				spawn = append(spawn, b)
+			case *ssa.Call:
+				if an.CallName(x) == "(*sync.WaitGroup).Wait" {
+					waits[b] = true
+				}
+			}
+		}
+	}
+	bad := ""
+	for _, sb := range spawn {
+		seen := map[*ssa.BasicBlock]bool{}
+		// "if ch != nil { ch <- nil; wg.Wait() }": after the go statement the channel variable is not nil
+		// (it is made before the goroutine starts and cleared only where the goroutine is joined)
+		infeasible := func(b *ssa.BasicBlock, k int) bool {
+			iff, ok := b.Instrs[len(b.Instrs)-1].(*ssa.If)
+			if !ok {
+				return false
+			}
+			bo, ok := iff.Cond.(*ssa.BinOp)
+			if !ok || (bo.Op != token.NEQ && bo.Op != token.EQL) || an.Expr(bo.Y) != "nil" {
+				return false
+			}
+			ld, ok := bo.X.(*ssa.UnOp)
+			if !ok {
+				return false
+			}
+			al, ok := ld.X.(*ssa.Alloc)
+			if !ok {
+				return false
+			}
+			made := false
+			for _, ref := range *al.Referrers() {
+				st, ok := ref.(*ssa.Store)
+				if !ok {
+					continue
+				}
+				if _, isMk := st.Val.(*ssa.MakeChan); isMk && st.Block().Dominates(sb) {
+					made = true
+					continue
+				}
+				if !waits[st.Block()] {
+					return false // reassigned somewhere else
+				}
+			}
+			nilEdge := 1 // the outcome "is nil"
+			if bo.Op == token.EQL {
+				nilEdge = 0
+			}
+			return made && k == nilEdge
+		}
+		var walk func(b *ssa.BasicBlock) bool
+		walk = func(b *ssa.BasicBlock) bool {
+			for k, s := range b.Succs {
+				if infeasible(b, k) {
+					continue
+				}
+				if s == sb {
+					return true
+				}
+				if seen[s] || waits[s] {
+					continue
+				}
+				seen[s] = true
+				if walk(s) {
+					return true
+				}
+			}
+			return false
+		}
+		if walk(sb) {
+			bad = p.Pos(sb.Instrs[0].Pos())
+		}
+	}
+	r.Check(len(spawn) > 0 && bad == "", rule, "loader/retry-joins-helper", p.Pos(ld.Pos()), "every way from starting the map-filling goroutine to starting another one passes WaitGroup.Wait", "the loader can start a second map-filling goroutine (retry with the other snapshot) without joining the first: the final Wait then never returns; go statement near "+bad)
 }
 
 func c07Undo(r *core.Run, p *core.Program) {
